@@ -239,6 +239,12 @@ func (f *Factory) Preamble(k int) {
 			}
 		}
 		set[wire.OutPoint{Hash: cb.TxHash()}] = Coin{subsidy, opTrue, true, int32(i)}
+		for _, tx := range txs {
+			h := tx.TxHash()
+			for oi := range tx.TxOut {
+				f.Universe[wire.OutPoint{Hash: h, Index: uint32(oi)}] = true
+			}
+		}
 		blk := &wire.MsgBlock{Header: wire.BlockHeader{Version: 0x20000000, PrevBlock: *prev.Hash(), Bits: easyBits,
 			Timestamp: prev.MsgBlock().Header.Timestamp.Add(1201 * time.Second)}}
 		ub := make([]*btcutil.Tx, len(txs))
@@ -364,14 +370,28 @@ func (f *Factory) build(b int) {
 	// this branch) is spent with probability SpendP by its own transaction
 	// with one to three outputs; some pay a fee which the coinbase claims to
 	// the last satoshi
-	for _, cd := range bb.avail {
-		if f.rng.Float64() >= f.SpendP || !bb.spendable(cd.c) || len(cd.c.PkScript) == 0 || cd.c.PkScript[0] == txscript.OP_0 {
+	usable := func(c Coin) bool {
+		return bb.spendable(c) && len(c.PkScript) > 0 && c.PkScript[0] != txscript.OP_0
+	}
+	for ci, cd := range bb.avail {
+		if _, unspent := bb.mine[cd.op]; !unspent || f.rng.Float64() >= f.SpendP || !usable(cd.c) {
 			continue
 		}
 		tx := wire.NewMsgTx(1)
 		tx.LockTime = uint32(b*1000 + len(bb.txs)) // unique txids: no accidental BIP30 collisions
 		tx.AddTxIn(&wire.TxIn{PreviousOutPoint: cd.op, Sequence: wire.MaxTxInSequenceNum})
 		amt := cd.c.Amount
+		// sometimes a second and third input: dissimilar outputs spent by one transaction
+		for _, extra := range bb.avail[ci+1:] {
+			if len(tx.TxIn) >= 3 || f.rng.Float64() >= 0.4 {
+				break
+			}
+			if _, unspent := bb.mine[extra.op]; unspent && usable(extra.c) {
+				tx.AddTxIn(&wire.TxIn{PreviousOutPoint: extra.op, Sequence: wire.MaxTxInSequenceNum})
+				amt += extra.c.Amount
+				delete(bb.mine, extra.op)
+			}
+		}
 		fee := int64(0)
 		if !dup && f.FeeP > 0 && f.rng.Float64() < f.FeeP && amt > 10000 {
 			fee = int64(1 + f.rng.Intn(5000))
@@ -394,6 +414,19 @@ func (f *Factory) build(b int) {
 			op := wire.OutPoint{Hash: h, Index: uint32(i)}
 			bb.mine[op] = Coin{o.Value, o.PkScript, false, height}
 			f.Universe[op] = true
+		}
+		// sometimes a child in the same block spends the first output, the siblings stay unspent
+		if len(tx.TxOut) >= 2 && f.rng.Float64() < 0.4 {
+			child := wire.NewMsgTx(1)
+			child.LockTime = uint32(b*1000 + len(bb.txs) + 300)
+			pop := wire.OutPoint{Hash: h, Index: 0}
+			child.AddTxIn(&wire.TxIn{PreviousOutPoint: pop, Sequence: wire.MaxTxInSequenceNum})
+			child.AddTxOut(&wire.TxOut{Value: tx.TxOut[0].Value, PkScript: opTrue})
+			bb.txs = append(bb.txs, child)
+			delete(bb.mine, pop)
+			ch := child.TxHash()
+			bb.mine[wire.OutPoint{Hash: ch}] = Coin{child.TxOut[0].Value, opTrue, false, height}
+			f.Universe[wire.OutPoint{Hash: ch}] = true
 		}
 	}
 
